@@ -53,10 +53,11 @@ pub fn run(args: &Args) -> serde_json::Value {
     let mut hist_n = std::collections::BTreeMap::new();
     let mut n_h = 0;
     let mut n_hb = 0;
+    let mut n_staged = 0usize;
     let mut max_cutoff_seen = 0;
     let mut distinct = std::collections::HashSet::new();
     let mut fail = |prop: &str, what: String, ctx: serde_json::Value, v: &mut Vec<serde_json::Value>| {
-        if v.len() < 60 {
+        if v.iter().filter(|f| f["prop"].as_str() == Some(prop)).count() < 20 {
             v.push(json!({"prop": prop, "what": what, "context": ctx}));
         }
     };
@@ -163,17 +164,27 @@ pub fn run(args: &Args) -> serde_json::Value {
     // ---------------- generic sampler ----------------
     for hi in 0..n_hist {
         let spec = random_qmc(&mut rng);
-        let mut g = match spec.build(TapeRng::new(rng.next())) {
+        // every fourth heat-bath sampler gets its interactions in two stages, with the option toggled in between
+        let staged = spec.hb && spec.bonds.len() >= 2 && rng.chance(1, 2);
+        let built = if staged {
+            n_staged += 1;
+            let m = 1 + rng.below(spec.bonds.len() as u64 - 1) as usize;
+            catch_unwind(AssertUnwindSafe(|| spec.build_staged(TapeRng::new(rng.next()), m, 2, 1.0))).unwrap_or(None)
+        } else {
+            spec.build(TapeRng::new(rng.next()))
+        };
+        let mut g = match built {
             Some(g) => g,
             None => {
-                fail("C16", "generated interaction rejected".into(), json!({"bonds": spec.coq()}), &mut oracle_failures);
+                fail("C16", "generated interaction rejected (or staged construction panicked)".into(), json!({"bonds": spec.coq(), "staged": staged}), &mut oracle_failures);
                 continue;
             }
         };
         let mut seen = 0usize;
+        let _ = take_words_qmc(&g, &mut seen); // words drawn while staging are not part of any replayed call
         let ncalls = 1 + rng.below(max_calls) as usize;
         let ctx = json!({"sampler": "qmc", "history": hi, "bonds": spec.bonds.iter().map(|b| json!([b.kind, b.mat, b.vars])).collect::<Vec<_>>(),
-            "loops": spec.loops, "heatbath": spec.hb});
+            "loops": spec.loops, "heatbath": spec.hb, "interactions_added_in_two_stages": staged});
         for ci in 0..ncalls {
             let beta = [0.25, 0.5, 1.0, 2.0, 4.0][rng.below(5) as usize];
             let before = snapshot_qmc(&g);
@@ -229,7 +240,7 @@ pub fn run(args: &Args) -> serde_json::Value {
     let files = crate::write_shards(&args.out, "Steps", "Steps", &coq, per);
     json!({"files": files, "evaluations": coq.len(), "distinct_nontrivial": distinct.len(), "histories": 2 * n_hist,
         "calls": n_calls, "calls_by_kind": hist_calls, "n_after_histogram(bucket of 5)": hist_n, "ising_with_field": n_h,
-        "ising_with_heatbath": n_hb, "max_cutoff_seen": max_cutoff_seen, "raw_words_replayed": n_words,
+        "ising_with_heatbath": n_hb, "generic_built_in_two_stages": n_staged, "max_cutoff_seen": max_cutoff_seen, "raw_words_replayed": n_words,
         "oracle_failures": oracle_failures, "samples": samples,
         "rule": "random Ising samplers (2-5 spins, multi-edges, J of both signs, h = 0 / +-, heat bath on/off, initial cutoff 1..8) and generic samplers (exchange terms with loops, symmetric diagonal + constant terms with clusters, mixed arities), histories of interleaved timestep / single_diagonal_step / single_cluster_step with a beta per call; every call is one case replayed by the model on the raw RNG words; distinct = distinct (configuration before, words consumed)"})
 }
